@@ -66,7 +66,7 @@ def enter_line(qual, names, indent="    "):
     return indent + "_t = _r.enter(%r%s)\n" % (qual, "".join(", %s=%s" % (n, n) for n in names))
 
 
-def gen_module(rng, modname):
+def gen_module(rng, modname, with_async_gen=False):
     """returns (source, functions) where functions = list of dicts describing each callable thing"""
     src = ["import functools\nimport mtv.recorder as _r\n\n",
            "def deco(f):\n    @functools.wraps(f)\n    def wrapper(*a, **k):\n"
@@ -126,6 +126,14 @@ def gen_module(rng, modname):
                "    await _r.Suspend()\n    raise _r.raising(_t, RuntimeError('c'))\n\n")
     for q in ("coro", "coro_nosusp", "coro_raise"):
         funcs.append({"qual": q, "call": q, "kind": "coroutine", "mk": PARAM_SHAPES[0][2], "exit": "coro", "params": ["a"]})
+    if with_async_gen:
+        # asynchronous generators: resumed after every await and every yield; rebind their parameter in between
+        src.append("async def agen(x, n=2):\n" + enter_line("agen", ["x", "n"]) +
+                   "    for i in range(n):\n        x = str(x)\n        await _r.Suspend()\n        yield _r.yielded(_t, i)\n"
+                   "    _r.ret(_t, None)\n\n"
+                   "async def use_agen(x):\n" + enter_line("use_agen", ["x"]) +
+                   "    out = []\n    async for v in agen(x, 3):\n        out.append(v)\n    return _r.ret(_t, out)\n\n")
+        funcs.append({"qual": "use_agen", "call": "use_agen", "kind": "coroutine", "mk": PARAM_SHAPES[0][2], "exit": "coro", "params": ["x"]})
     # classes
     sig, names, mk = shape()
     msig = "self" + (", " + sig if sig else "")
